@@ -27,7 +27,24 @@
 //
 // Only the standard library is used.
 //
-//	go run . [-repo DIR] [-o FILE]      (-o - writes to stdout)
+// A second output, coq/Gen/FuncsCarto.v (flag -ocarto), holds the nine map projections of the
+// package carto (constructors, setters, Forward, Reverse and the helpers of carto/util.go), translated
+// by the same machinery over the carrier extended with the elementary functions
+// (coq/Base/FOpsT.v: record fops_t).  It is produced by a second, independent generator state in
+// the EXTENDED fragment (gen.ext), which adds to the fragment above:
+//   - pointer receivers and results of type *T, T a struct of the fragment: a pointer is translated
+//     as the value it points to (aliasing is not tracked; accepted are only the receiver, `&T{..}`
+//     and `return recv`); a method without results that assigns to fields of its receiver is
+//     translated as the function returning the updated receiver value;
+//   - fixed-size arrays [N]T as N-tuples, indexed by integer constants (reading and assignment);
+//   - math.Pi (translated as the float64 operand t_pi, NOT folded into constant expressions: Go
+//     folds `π/4` exactly and rounds once, the translation writes f_div t_pi 4 - the same real
+//     number), math.Sin Cos Tan Asin Acos Atan Atan2 Exp Log Pow Copysign;
+//   - the shift operators << and >> on integers (Z.shiftl, Z.shiftr; no wrap-around).
+//
+// None of the extensions is active for coq/Gen/Funcs.v.
+//
+//	go run . [-repo DIR] [-o FILE] [-ocarto FILE]     (- writes to stdout)
 package main
 
 import (
@@ -88,6 +105,40 @@ var roots = []root{
 	{"geom", "Envelope.Width", false}, {"geom", "Envelope.Height", false}, {"geom", "Envelope.Area", false},
 	{"geom", "Envelope.Distance", false}, {"geom", "Envelope.AsBox", false},
 }
+
+// the second output (coq/Gen/FuncsCarto.v): package carto, extended fragment
+var cartoRoots = []root{
+	// carto/util.go
+	{"carto", "dtor", false}, {"carto", "rtod", false}, {"carto", "rtodxy", false},
+	{"carto", "sq", false}, {"carto", "sec", false}, {"carto", "cot", false}, {"carto", "sign", false},
+	{"carto", "pow", false}, {"carto", "atan2", false},
+	// the nine projections: constructor, setters, Forward, Reverse
+	{"carto", "NewEquirectangular", false}, {"carto", "Equirectangular.SetCentralMeridian", false},
+	{"carto", "Equirectangular.SetStandardParallels", false},
+	{"carto", "Equirectangular.Forward", false}, {"carto", "Equirectangular.Reverse", false},
+	{"carto", "NewSinusoidal", false}, {"carto", "Sinusoidal.SetCentralMeridian", false},
+	{"carto", "Sinusoidal.Forward", false}, {"carto", "Sinusoidal.Reverse", false},
+	{"carto", "NewWebMercator", false},
+	{"carto", "WebMercator.Forward", false}, {"carto", "WebMercator.Reverse", false},
+	{"carto", "NewLambertCylindricalEqualArea", false}, {"carto", "LambertCylindricalEqualArea.SetCentralMeridian", false},
+	{"carto", "LambertCylindricalEqualArea.Forward", false}, {"carto", "LambertCylindricalEqualArea.Reverse", false},
+	{"carto", "NewOrthographic", false}, {"carto", "Orthographic.SetCenter", false},
+	{"carto", "Orthographic.Forward", false}, {"carto", "Orthographic.Reverse", false},
+	{"carto", "NewAzimuthalEquidistant", false}, {"carto", "AzimuthalEquidistant.SetCenter", false},
+	{"carto", "AzimuthalEquidistant.Forward", false}, {"carto", "AzimuthalEquidistant.Reverse", false},
+	{"carto", "NewLambertConformalConic", false}, {"carto", "LambertConformalConic.SetOrigin", false},
+	{"carto", "LambertConformalConic.SetStandardParallels", false},
+	{"carto", "LambertConformalConic.Forward", false}, {"carto", "LambertConformalConic.Reverse", false},
+	{"carto", "NewAlbersEqualAreaConic", false}, {"carto", "AlbersEqualAreaConic.SetOrigin", false},
+	{"carto", "AlbersEqualAreaConic.SetStandardParallels", false},
+	{"carto", "AlbersEqualAreaConic.Forward", false}, {"carto", "AlbersEqualAreaConic.Reverse", false},
+	{"carto", "NewEquidistantConic", false}, {"carto", "EquidistantConic.SetOrigin", false},
+	{"carto", "EquidistantConic.SetStandardParallels", false},
+	{"carto", "EquidistantConic.Forward", false}, {"carto", "EquidistantConic.Reverse", false},
+}
+
+// float constants of package carto, emitted as values of the carrier (exact rational value)
+var cartoConsts = []string{"WGS84EllipsoidEquatorialRadiusM", "WGS84EllipsoidPolarRadiusM", "WGS84EllipsoidMeanRadiusM"}
 
 // ---------------------------------------------------------------------------------------------
 // loading
@@ -323,6 +374,7 @@ const (
 	kTuple
 	kOpaque  // outside the fragment (string, slices, interfaces, ...)
 	kUntyped // numeric constant without a type yet
+	kArray   // extended fragment only: [N]T, translated as an N-tuple (elems[0] is T, n is N)
 )
 
 type field struct {
@@ -338,6 +390,7 @@ type ty struct {
 	elems  []*ty
 	coq    string // struct: name of the record
 	file   string
+	n      int // kArray: the length
 }
 
 var (
@@ -370,6 +423,8 @@ func (t *ty) String() string {
 		return "(" + strings.Join(s, ", ") + ")"
 	case kUntyped:
 		return "untyped constant"
+	case kArray:
+		return fmt.Sprintf("[%d]%s", t.n, t.elems[0])
 	}
 	return "opaque " + t.name
 }
@@ -388,6 +443,15 @@ func (t *ty) coqType() string {
 		var s []string
 		for _, e := range t.elems {
 			s = append(s, e.coqType())
+		}
+		return "(" + strings.Join(s, " * ") + ")%type"
+	case kArray:
+		if t.n == 1 {
+			return t.elems[0].coqType()
+		}
+		s := make([]string, t.n)
+		for i := range s {
+			s[i] = t.elems[0].coqType()
 		}
 		return "(" + strings.Join(s, " * ") + ")%type"
 	}
@@ -413,6 +477,8 @@ func sameType(a, b *ty) bool {
 				return false
 			}
 		}
+	case kArray:
+		return a.n == b.n && sameType(a.elems[0], b.elems[0])
 	}
 	return true
 }
@@ -456,6 +522,7 @@ type gen struct {
 	globals  map[string]bool
 	okFuncs  []string
 	badFuncs []string
+	ext      bool // the extended fragment (second output, package carto)
 }
 
 func (g *gen) pkgOf(rel string) *pkg {
@@ -490,6 +557,24 @@ func (g *gen) typeOf(p *pkg, file *ast.File, e ast.Expr) *ty {
 		if id, ok := x.X.(*ast.Ident); ok {
 			if q := g.importedPkg(file, id.Name); q != nil {
 				return g.namedType(q, x.Sel.Name)
+			}
+		}
+	case *ast.StarExpr:
+		// extended fragment: a pointer to a struct of the fragment is translated as the struct value
+		if g.ext {
+			if t := g.typeOf(p, file, x.X); t.k == kStruct {
+				return t
+			}
+		}
+	case *ast.ArrayType:
+		if g.ext && x.Len != nil {
+			if v, ok := p.evalConst(x.Len, 0); ok {
+				if r, ok := ratOfConst(v); ok && r.IsInt() && r.Num().IsInt64() && r.Num().Int64() >= 1 && r.Num().Int64() <= 16 {
+					et := g.typeOf(p, file, x.Elt)
+					if et.k == kFloat || et.k == kInt || et.k == kBool || et.k == kStruct {
+						return &ty{k: kArray, elems: []*ty{et}, n: int(r.Num().Int64())}
+					}
+				}
 			}
 		}
 	}
@@ -606,6 +691,10 @@ type ctx struct {
 	named   []string // named results
 	noCatch int
 	tmp     int
+	// extended fragment: name of the pointer receiver of a method without results (the translated
+	// function returns the receiver value as updated by the body)
+	voidRecv   string
+	indexExprs []ast.Expr // index expressions of the assignment targets seen so far (see lvalue)
 }
 
 var reserved = map[string]bool{"F": true, "ops": true, "as": true, "at": true, "cofix": true, "else": true, "end": true,
@@ -647,13 +736,16 @@ func (c *ctx) lookup(name string) *local {
 	return nil
 }
 
+// further names the second output must not bind
+var extReserved = map[string]bool{"T": true, "fops_t": true, "t_base": true}
+
 func (c *ctx) fresh(base string) string {
 	n := coqIdent(base)
 	if n == "_" || n == "" {
 		n = "v"
 	}
 	cand := n
-	for i := 1; reserved[cand] || c.used[cand] || c.g.globals[cand] || strings.HasPrefix(cand, "f_") || strings.HasPrefix(cand, "Mk_"); i++ {
+	for i := 1; reserved[cand] || (c.g.ext && (extReserved[cand] || strings.HasPrefix(cand, "t_"))) || c.used[cand] || c.g.globals[cand] || strings.HasPrefix(cand, "f_") || strings.HasPrefix(cand, "Mk_"); i++ {
 		cand = fmt.Sprintf("%s_%d", n, i)
 	}
 	c.used[cand] = true
@@ -732,12 +824,46 @@ func (c *ctx) zero(t *ty) string {
 			s = append(s, c.zero(e))
 		}
 		return "(" + strings.Join(s, ", ") + ")"
+	case kArray:
+		s := make([]string, t.n)
+		for i := range s {
+			s[i] = c.zero(t.elems[0])
+		}
+		return c.tuple(s)
 	}
 	fail("no zero value of type %s in the fragment", t)
 	return ""
 }
 
 func proj(t *ty, f string) string { return t.coq + "_" + coqIdent(f) }
+
+// element i of the n-tuple code (Coq's tuples nest to the left: (a, b, c) = ((a, b), c))
+func tupleElem(code string, n, i int) string {
+	if n == 1 {
+		return code
+	}
+	s := code
+	for k := n - 1; k > i && k > 0; k-- {
+		s = "(fst " + s + ")"
+	}
+	if i == 0 {
+		return s
+	}
+	return "(snd " + s + ")"
+}
+
+// a constant array index (extended fragment)
+func (c *ctx) constIndex(e ast.Expr, t *ty) int {
+	v := c.expr(e, tInt)
+	if v.t.k != kUntyped || !v.c.IsInt() || !v.c.Num().IsInt64() {
+		fail("array index %s is not an integer constant", exprString(e))
+	}
+	i := v.c.Num().Int64()
+	if i < 0 || i >= int64(t.n) {
+		fail("array index %d out of range [0, %d)", i, t.n)
+	}
+	return int(i)
+}
 
 func (c *ctx) fieldOf(t *ty, name string) (field, bool) {
 	if t.k == kStruct {
@@ -824,8 +950,20 @@ func (c *ctx) expr(e ast.Expr, hint *ty) val {
 			return c.g.constant(c.p, cs)
 		}
 		fail("identifier %s is not a local variable or a numeric constant", x.Name)
+	case *ast.IndexExpr:
+		if !c.g.ext {
+			break
+		}
+		a := c.expr(x.X, nil)
+		if a.t.k != kArray {
+			fail("index expression on %s is outside the fragment", a.t)
+		}
+		return val{code: tupleElem(a.code, a.t.n, c.constIndex(x.Index, a.t)), t: a.t.elems[0]}
 	case *ast.SelectorExpr:
 		if id, ok := x.X.(*ast.Ident); ok && c.lookup(id.Name) == nil {
+			if c.g.ext && c.p.consts[id.Name] == nil && !c.p.vars[id.Name] && importPath(c.file, id.Name) == "math" && x.Sel.Name == "Pi" {
+				return val{code: "(t_pi T)", t: tFloat}
+			}
 			if q := c.g.importedPkg(c.file, id.Name); q != nil {
 				if cs := q.consts[x.Sel.Name]; cs != nil {
 					return c.g.constant(q, cs)
@@ -869,6 +1007,11 @@ func (c *ctx) expr(e ast.Expr, hint *ty) val {
 				fail("! on %s", v.t)
 			}
 			return val{code: "(negb " + v.code + ")", t: v.t}
+		case token.AND:
+			// extended fragment: &T{..} is the struct value (a pointer is translated as what it points to)
+			if cl, ok := unparen(x.X).(*ast.CompositeLit); ok && c.g.ext {
+				return c.composite(cl)
+			}
 		}
 		fail("unary operator %s is outside the fragment", x.Op)
 	case *ast.BinaryExpr:
@@ -923,6 +1066,14 @@ func exprString(e ast.Expr) string {
 
 // a package-level numeric constant: typed integer constants become Gallina definitions
 func (g *gen) constant(p *pkg, cs *constSpec) val {
+	if g.ext && cs.typ == nil {
+		// const π = math.Pi  (extended fragment): the operand t_pi
+		if sel, ok := unparen(cs.expr).(*ast.SelectorExpr); ok && sel.Sel.Name == "Pi" {
+			if id, ok := sel.X.(*ast.Ident); ok && p.consts[id.Name] == nil && !p.vars[id.Name] && importPath(p.files[cs.file], id.Name) == "math" {
+				return val{code: "(t_pi T)", t: tFloat}
+			}
+		}
+	}
 	v, ok := p.constVal(cs.name)
 	if !ok {
 		fail("constant %s is not a numeric constant the generator can evaluate", cs.name)
@@ -985,6 +1136,25 @@ func (c *ctx) binary(x *ast.BinaryExpr, hint *ty) val {
 			op = "||"
 		}
 		return val{code: "(" + a.code + " " + op + " " + b.code + ")", t: tBool}
+	}
+	if (x.Op == token.SHL || x.Op == token.SHR) && c.g.ext {
+		// extended fragment: shifts of integers (operand types need not agree; no wrap-around)
+		a := c.expr(x.X, tInt)
+		b := c.expr(x.Y, tInt)
+		if a.t.k == kUntyped {
+			a = c.constAt(a.c, tInt)
+		}
+		if b.t.k == kUntyped {
+			b = c.constAt(b.c, tInt)
+		}
+		if a.t.k != kInt || b.t.k != kInt {
+			fail("operator %s on %s and %s", x.Op, a.t, b.t)
+		}
+		f := "Z.shiftl"
+		if x.Op == token.SHR {
+			f = "Z.shiftr"
+		}
+		return val{code: "(" + f + " " + a.code + " " + b.code + ")", t: a.t}
 	}
 	arith := x.Op == token.ADD || x.Op == token.SUB || x.Op == token.MUL || x.Op == token.QUO
 	cmp := x.Op == token.LSS || x.Op == token.LEQ || x.Op == token.GTR || x.Op == token.GEQ || x.Op == token.EQL || x.Op == token.NEQ
@@ -1136,6 +1306,19 @@ func (c *ctx) composite(x *ast.CompositeLit) val {
 		fail("composite literal without a type")
 	}
 	t := c.g.typeOf(c.p, c.file, x.Type)
+	if t.k == kArray {
+		if len(x.Elts) != t.n {
+			fail("array literal of %s with %d elements", t, len(x.Elts))
+		}
+		parts := make([]string, t.n)
+		for i, el := range x.Elts {
+			if _, ok := el.(*ast.KeyValueExpr); ok {
+				fail("keyed array literal")
+			}
+			parts[i] = c.conv(c.expr(el, t.elems[0]), t.elems[0], "array element").code
+		}
+		return val{code: c.tuple(parts), t: t}
+	}
 	if t.k != kStruct {
 		fail("composite literal of type %s is outside the fragment", t)
 	}
@@ -1195,6 +1378,15 @@ var mathFuncs = map[string]struct {
 	"Sqrt": {"f_sqrt", 1, tFloat}, "Hypot": {"f_hypot", 2, tFloat}, "IsNaN": {"f_is_nan", 1, tBool},
 }
 
+var mathFuncsExt = map[string]struct {
+	op    string
+	arity int
+}{
+	"Sin": {"t_sin", 1}, "Cos": {"t_cos", 1}, "Tan": {"t_tan", 1}, "Asin": {"t_asin", 1}, "Acos": {"t_acos", 1},
+	"Atan": {"t_atan", 1}, "Atan2": {"t_atan2", 2}, "Exp": {"t_exp", 1}, "Log": {"t_log", 1}, "Pow": {"t_pow", 2},
+	"Copysign": {"t_copysign", 2},
+}
+
 func (c *ctx) call(x *ast.CallExpr, hint *ty) val {
 	if x.Ellipsis != token.NoPos {
 		fail("call with ... is outside the fragment")
@@ -1238,6 +1430,16 @@ func (c *ctx) call(x *ast.CallExpr, hint *ty) val {
 						}
 					}
 					fail("math.IsInf with a sign other than the constant 0")
+				}
+				if me, ok := mathFuncsExt[f.Sel.Name]; ok && c.g.ext {
+					if len(x.Args) != me.arity {
+						fail("math.%s with %d arguments", f.Sel.Name, len(x.Args))
+					}
+					s := "(" + me.op + " T"
+					for _, a := range x.Args {
+						s += " " + c.conv(c.expr(a, tFloat), tFloat, "argument of math."+f.Sel.Name).code
+					}
+					return val{code: s + ")", t: tFloat}
 				}
 				m, ok := mathFuncs[f.Sel.Name]
 				if !ok {
@@ -1504,6 +1706,13 @@ func (c *ctx) returnValue(s *ast.ReturnStmt) string {
 	} else {
 		want = []*ty{rt}
 	}
+	if len(s.Results) == 0 && c.voidRecv != "" {
+		l := c.lookup(c.voidRecv)
+		if l == nil {
+			fail("receiver %s is not in scope", c.voidRecv)
+		}
+		return l.coq
+	}
 	if len(s.Results) == 0 {
 		if len(c.named) != len(want) {
 			fail("bare return without named results")
@@ -1547,6 +1756,13 @@ func (c *ctx) lvalue(e ast.Expr) (root string, path []string) {
 	case *ast.SelectorExpr:
 		r, p := c.lvalue(x.X)
 		return r, append(p, x.Sel.Name)
+	case *ast.IndexExpr:
+		if c.g.ext {
+			// "#<expr index>": resolved against the array type in update / lhsType
+			r, p := c.lvalue(x.X)
+			c.indexExprs = append(c.indexExprs, x.Index)
+			return r, append(p, fmt.Sprintf("#%d", len(c.indexExprs)-1))
+		}
 	}
 	fail("assignment to %s is outside the fragment", exprString(e))
 	return "", nil
@@ -1559,6 +1775,23 @@ func (c *ctx) update(cur string, t *ty, path []string, v string, vt *ty, what st
 			fail("assignment to %s: have %s, want %s", what, vt, t)
 		}
 		return v
+	}
+	if strings.HasPrefix(path[0], "#") {
+		if t.k != kArray {
+			fail("index expression on %s is outside the fragment", t)
+		}
+		k, _ := strconv.Atoi(path[0][1:])
+		idx := c.constIndex(c.indexExprs[k], t)
+		parts := make([]string, t.n)
+		for i := range parts {
+			sub := tupleElem(cur, t.n, i)
+			if i == idx {
+				parts[i] = c.update(sub, t.elems[0], path[1:], v, vt, what)
+			} else {
+				parts[i] = sub
+			}
+		}
+		return c.tuple(parts)
 	}
 	f, ok := c.fieldOf(t, path[0])
 	if !ok {
@@ -1708,6 +1941,13 @@ func (c *ctx) lhsType(e ast.Expr) *ty {
 	}
 	t := l.t
 	for _, f := range path {
+		if strings.HasPrefix(f, "#") {
+			if t.k != kArray {
+				fail("index expression on %s is outside the fragment", t)
+			}
+			t = t.elems[0]
+			continue
+		}
 		fd, ok := c.fieldOf(t, f)
 		if !ok {
 			fail("%s has no field %s in the fragment", t, f)
@@ -1959,6 +2199,8 @@ func (g *gen) translateBody(p *pkg, fd *ast.FuncDecl, fi *funcInfo) (def string,
 	c := &ctx{g: g, p: p, file: p.files[p.funcFile[fi.key]], fi: fi, used: map[string]bool{}}
 	c.push()
 	var binders []string
+	var recvT *ty // extended fragment: the struct type of a pointer receiver
+	recvName := ""
 	addParam := func(name string, t *ty) {
 		fi.params = append(fi.params, t)
 		if t.k == kOpaque || t.k == kTuple {
@@ -1979,14 +2221,21 @@ func (g *gen) translateBody(p *pkg, fd *ast.FuncDecl, fi *funcInfo) (def string,
 	}
 	if fd.Recv != nil && len(fd.Recv.List) == 1 {
 		rn, ptr := recvTypeName(fd)
-		if ptr {
+		if ptr && !g.ext {
 			fail("pointer receiver")
 		}
 		name := ""
 		if len(fd.Recv.List[0].Names) == 1 {
 			name = fd.Recv.List[0].Names[0].Name
 		}
-		addParam(name, g.namedType(p, rn))
+		rt := g.namedType(p, rn)
+		if ptr {
+			if rt.k != kStruct {
+				fail("pointer receiver of type %s, which is outside the fragment", rt)
+			}
+			recvT, recvName = rt, name
+		}
+		addParam(name, rt)
 	}
 	for _, f := range fd.Type.Params.List {
 		t := g.typeOf(p, c.file, f.Type)
@@ -2001,10 +2250,17 @@ func (g *gen) translateBody(p *pkg, fd *ast.FuncDecl, fi *funcInfo) (def string,
 			addParam(id.Name, t)
 		}
 	}
-	if fd.Type.Results == nil || len(fd.Type.Results.List) == 0 {
+	void := fd.Type.Results == nil || len(fd.Type.Results.List) == 0
+	if void && (recvT == nil || recvName == "" || recvName == "_") {
 		fail("function without a result")
 	}
 	var rts []*ty
+	if void {
+		// extended fragment: a method without results on a pointer receiver returns the updated receiver
+		c.voidRecv = recvName
+		rts = append(rts, recvT)
+		fd = &ast.FuncDecl{Recv: fd.Recv, Name: fd.Name, Type: &ast.FuncType{Params: fd.Type.Params, Results: &ast.FieldList{}}, Body: fd.Body}
+	}
 	var rnames []string
 	for _, f := range fd.Type.Results.List {
 		t := g.typeOf(p, c.file, f.Type)
@@ -2037,6 +2293,11 @@ func (g *gen) translateBody(p *pkg, fd *ast.FuncDecl, fi *funcInfo) (def string,
 	}
 	c.push()
 	body := c.stmts(fd.Body.List, func(n int) string {
+		if c.voidRecv != "" {
+			if l := c.lookup(c.voidRecv); l != nil {
+				return ind(n) + c.ret(l.coq)
+			}
+		}
 		fail("control reaches the end of the function without a return")
 		return ""
 	}, 1)
@@ -2054,24 +2315,12 @@ func (g *gen) translateBody(p *pkg, fd *ast.FuncDecl, fi *funcInfo) (def string,
 // ---------------------------------------------------------------------------------------------
 // output
 
-func main() {
-	repo := flag.String("repo", "", "root of the Go repository (default $VERIF_REPO or /repo)")
-	out := flag.String("o", "-", "output file (- for stdout)")
-	flag.Parse()
-	if *repo == "" {
-		*repo = os.Getenv("VERIF_REPO")
-	}
-	if *repo == "" {
-		*repo = "/repo"
-	}
-	g := &gen{repo: *repo, pkgs: map[string]*pkg{}, funcs: map[string]*funcInfo{}, structs: map[string]*ty{},
-		named: map[string]*ty{}, consts: map[string]bool{}, eqbDone: map[string]bool{}, globals: map[string]bool{}}
-	for _, r := range roots {
-		g.translate(g.pkgOf(r.pkg), r.key, r.partial)
-	}
+func newGen(repo string, ext bool) *gen {
+	return &gen{repo: repo, pkgs: map[string]*pkg{}, funcs: map[string]*funcInfo{}, structs: map[string]*ty{},
+		named: map[string]*ty{}, consts: map[string]bool{}, eqbDone: map[string]bool{}, globals: map[string]bool{}, ext: ext}
+}
 
-	var b bytes.Buffer
-	b.WriteString(`(* GENERATED FILE - do not edit.  Written by tools/gen_funcs (tools/gen_funcs.sh) from the Go
+const headerFuncs = `(* GENERATED FILE - do not edit.  Written by tools/gen_funcs (tools/gen_funcs.sh) from the Go
    source of the library under test, on every run of tools/check.py.  Each definition is the body of
    one Go function, translated operator by operator from the syntax tree into Gallina over the
    abstract ordinate carrier of coq/Base/FOps.v (nothing is simplified).  The obligations that the
@@ -2081,9 +2330,30 @@ func main() {
 From Coq Require Import ZArith Bool String.
 From SF Require Import Base.FOps.
 Open Scope bool_scope.
+`
 
-(* ==================== struct types (one record per Go struct, fields in declaration order) *)
-`)
+const headerCarto = `(* GENERATED FILE - do not edit.  Written by tools/gen_funcs (tools/gen_funcs.sh, second output) from
+   the Go source of the library under test, on every run of tools/check.py: the package carto (nine
+   map projections: constructor, setters, Forward, Reverse; the helpers of carto/util.go; the radius
+   constants).  Each definition is the body of one Go function, translated operator by operator from
+   the syntax tree into Gallina over the carrier of coq/Base/FOpsT.v (record fops_t: the operations
+   of coq/Base/FOps.v, written [ops] below, plus pi and the elementary functions of package math);
+   nothing is simplified.  A pointer to a struct is translated as the struct value: a method with a
+   pointer receiver takes the receiver value, a method without results returns the receiver value
+   as updated by its body, &T{..} is the value T{..}.  An array [N]T is an N-tuple.  The obligations
+   that the model coq/Model/Carto.v computes the same functions over the real numbers are in
+   coq/Proofs/Funcs_tie_Carto.v.  A function that could not be located or that leaves the
+   translated fragment is set to [untranslatable "reason"], which breaks its obligation. *)
+From Coq Require Import ZArith Bool String.
+From SF Require Import Base.FOps Base.FOpsT.
+Open Scope bool_scope.
+`
+
+// the text of one generated file
+func (g *gen) emit(header string, floatConsts []item) []byte {
+	var b bytes.Buffer
+	b.WriteString(header)
+	b.WriteString("\n(* ==================== struct types (one record per Go struct, fields in declaration order) *)\n")
 	for _, t := range g.sorder {
 		fmt.Fprintf(&b, "\n(* %s/%s: type %s struct *)\n", t.p.rel, t.file, t.name)
 		fmt.Fprintf(&b, "Record %s (F : Type) := Mk_%s {", t.coq, t.coq)
@@ -2104,7 +2374,16 @@ Open Scope bool_scope.
 	for _, it := range g.citems {
 		fmt.Fprintf(&b, "\n(* %s *)\n%s\n", cmt(it.comment), it.def)
 	}
-	b.WriteString("\n(* ==================== function bodies *)\nSection Funcs.\nContext {F : Type} (ops : fops F).\n")
+	if g.ext {
+		b.WriteString("\n(* ==================== function bodies *)\nSection Funcs.\nContext {F : Type} (T : fops_t F).\nLocal Notation ops := (t_base T).\n")
+		b.WriteString("\n(* ---- float constants (exact value of the constant expression, lowest terms) *)\n")
+		for _, it := range floatConsts {
+			fmt.Fprintf(&b, "\n(* %s *)\n%s\n", cmt(it.comment), it.def)
+		}
+		b.WriteString("\n(* ---- functions *)\n")
+	} else {
+		b.WriteString("\n(* ==================== function bodies *)\nSection Funcs.\nContext {F : Type} (ops : fops F).\n")
+	}
 	for _, it := range g.items {
 		fmt.Fprintf(&b, "\n(* %s *)\n%s\n", cmt(it.comment), it.def)
 	}
@@ -2117,12 +2396,85 @@ Open Scope bool_scope.
 		}
 		b.WriteString("*)\n")
 	}
-	if *out == "-" {
-		os.Stdout.Write(b.Bytes())
+	return b.Bytes()
+}
+
+// a float constant of package p as a value of the carrier (second output)
+func (g *gen) floatConst(p *pkg, name string) (it item) {
+	coq := p.name + "_" + coqIdent(name)
+	g.globals[coq] = true
+	it.comment = fmt.Sprintf("%s: const %s", p.rel, name)
+	defer func() {
+		if r := recover(); r != nil {
+			e, ok := r.(trErr)
+			if !ok {
+				panic(r)
+			}
+			warn("%s: constant %s not translated: %s", p.rel, name, string(e))
+			it.comment += "  NOT TRANSLATED: " + string(e)
+			it.def = fmt.Sprintf("Definition %s := untranslatable %s.", coq, coqString(string(e)))
+		}
+	}()
+	cs := p.consts[name]
+	if cs == nil {
+		fail("constant not found in package %s", p.rel)
+	}
+	it.comment = fmt.Sprintf("%s/%s: const %s", p.rel, cs.file, name)
+	v := g.constant(p, cs)
+	c := &ctx{g: g, p: p, file: p.files[cs.file], used: map[string]bool{}}
+	if v.t.k == kUntyped {
+		v = c.constAt(v.c, tFloat)
+	}
+	if v.t.k != kFloat {
+		fail("constant of type %s", v.t)
+	}
+	it.def = fmt.Sprintf("Definition %s : F := %s.", coq, v.code)
+	return it
+}
+
+func writeOut(path string, data []byte) {
+	if path == "-" {
+		os.Stdout.Write(data)
 		return
 	}
-	if err := os.WriteFile(*out, b.Bytes(), 0o644); err != nil {
+	if err := os.WriteFile(path, data, 0o644); err != nil {
 		fmt.Fprintln(os.Stderr, "gen_funcs:", err)
 		os.Exit(2)
+	}
+}
+
+func main() {
+	repo := flag.String("repo", "", "root of the Go repository (default $VERIF_REPO or /repo)")
+	out := flag.String("o", "", "output file of the kernel functions, coq/Gen/Funcs.v (- for stdout)")
+	outCarto := flag.String("ocarto", "", "output file of the package carto, coq/Gen/FuncsCarto.v (- for stdout)")
+	flag.Parse()
+	if *repo == "" {
+		*repo = os.Getenv("VERIF_REPO")
+	}
+	if *repo == "" {
+		*repo = "/repo"
+	}
+	if *out == "" && *outCarto == "" {
+		*out = "-"
+	}
+	if *out != "" {
+		g := newGen(*repo, false)
+		for _, r := range roots {
+			g.translate(g.pkgOf(r.pkg), r.key, r.partial)
+		}
+		writeOut(*out, g.emit(headerFuncs, nil))
+	}
+	if *outCarto != "" {
+		warnings = nil // the warnings listed at the end of a file are those of that file
+		g := newGen(*repo, true)
+		p := g.pkgOf("carto")
+		var fc []item
+		for _, name := range cartoConsts {
+			fc = append(fc, g.floatConst(p, name))
+		}
+		for _, r := range cartoRoots {
+			g.translate(g.pkgOf(r.pkg), r.key, r.partial)
+		}
+		writeOut(*outCarto, g.emit(headerCarto, fc))
 	}
 }
